@@ -53,6 +53,7 @@ func hashMatchers(matchers []*labels.Matcher, mint, maxt int64, hints storage.Se
 	writeInt64(sb, mint)
 	writeInt64(sb, maxt)
 	writeInt64(sb, hints.Step)
+	writeInt64(sb, hints.Range)
 	writeString(sb, hints.Func)
 	writeString(sb, strings.Join(hints.Grouping, ";"))
 	writeBool(sb, hints.By)
